@@ -367,6 +367,25 @@ func genC20(t *rapid.T) *Case {
 		c.Input = BStr(genLinkElements(t))
 		return c
 	}
+	if c.Spec.Base != "Strict" && rapid.IntRange(0, 4).Draw(t, "styleFocus") == 0 {
+		// style-focused: the style attribute allowed, a few style rules with any kind of matcher
+		// (style matchers are not among the patterns the class excludes), values with escapes,
+		// !important, comments and malformed tails
+		c.Spec.Ops = append(c.Spec.Ops, Op{Kind: "AllowElements", Names: []string{"span", "div"}, ValRe: -1},
+			Op{Kind: "AllowAttrs", Attrs: []string{"style", "id"}, Scope: "global", ValRe: -1})
+		for i := rapid.IntRange(1, 3).Draw(t, "nstyleops"); i > 0; i-- {
+			c.Spec.Ops = append(c.Spec.Ops, genOp(t, "AllowStyles", &SpecOpts{StPool: []string{"color", "width", "font-family", "text-align", "x-any", "margin", "background"}}))
+		}
+		sm := BuildModel(c.Spec)
+		var sb strings.Builder
+		for i := rapid.IntRange(1, 3).Draw(t, "nstyled"); i > 0; i-- {
+			el := rapid.SampledFrom([]string{"span", "div", "p", "b"}).Draw(t, "sel")
+			sb.WriteString("<" + el + ` style="` + escAttr(genStyleFrom(t, append(sm.styleVocabulary(), "color", "COLOR", "-webkit-color")), '"') + `">t</` + el + ">")
+		}
+		c.Input = BStr(sb.String())
+		c.Kind = "style-focus"
+		return c
+	}
 	switch rapid.IntRange(0, 8).Draw(t, "inputKind") {
 	case 8:
 		// media elements whose only attributes are URLs (good and bad) and forced attributes
